@@ -207,6 +207,10 @@ func runC01(seed int64, n int, tier string, outDir string) (*Report, error) {
 		}
 		var diffs []string
 		c01Diff(structName(it), it, back, &diffs)
+		// equal "in value" includes that an interface-typed property can be compared and asserted as such
+		for _, bad := range ifaceWordsBad(back) {
+			diffs = append(diffs, "decoded "+bad+": interface word of another interface type (== and type assertions on it fail)")
+		}
 		if len(diffs) > 0 {
 			rep.Violate(Violation{Op: "json round trip " + label, Input: term, Expected: "decoded value equals the original up to the normal form", Observed: strings.Join(diffs, "; ") + "   JSON=" + trunc(string(out), 300), Index: idx, Class: c01Class(diffs)})
 		}
